@@ -53,9 +53,10 @@ class DiscStorage:
             file = self._lookup_path(name)
         except HashError:
             return
-        if file.stem.endswith("-new"):
-            stem = file.stem[:-4]
-            file.rename(file.with_name(stem + file.suffix))
+        if "-new." in file.name:
+            # <hash>-new<suffix> -> <hash><suffix>; Path.stem/suffix can not be
+            # used, because the suffix can be a single "." (Path.suffix is "")
+            file.rename(file.with_name(file.name.replace("-new.", ".", 1)))
 
     def _lookup_path(self, name) -> pathlib.Path:
         files = list(self.directory.glob(name))
